@@ -336,3 +336,4 @@ theorem isMatch_false_iff (a : Ast) (h : Chars) : isMatch a h = false ↔ ¬ Mat
   rw [← isMatch_iff]; cases isMatch a h <;> simp
 
 end Grcov.Regex
+
